@@ -166,6 +166,63 @@ theorem every_item_eventually_persisted (max : Nat) (hmax : 1 ≤ max) (ops : Li
   have := drain (load (run max ops)) (run max ops) (run_inv max ops) hr (by rw [hm]; exact hmax) (Nat.le_refl _)
   exact ⟨this.2.2.1, this.2.2.2.1, this.1, this.2.1⟩
 
+/-- **a graceful stop waits for the write in flight** ("… still holds for entries written after the process was stopped at
+any moment and started again"): `Close` returning is the signal that this commander hands nothing more to the store — a
+commander initialised from the store at that moment continues from what the store holds.  In every reachable state: if
+`Close` has returned, no call of the runner function (`InsertLogs`) is in flight and the loop has ended … -/
+theorem close_waits_for_inflight (max : Nat) (ops : List Op) (h : (run max ops).closeReturned = true) :
+    (run max ops).inflight = none ∧ (run max ops).phase = .stopped :=
+  ⟨(run_closeInv max ops h).2, (run_closeInv max ops h).1⟩
+
+/-- … so a `Close` issued while a call is in flight does not return in that step (it returns in the step in which that
+call returns, `close_returns_with_the_call`) … -/
+theorem close_blocks_while_call_in_flight (max : Nat) (ops : List Op) (b : List Nat)
+    (hb : (run max ops).inflight = some b) :
+    (run max ops).closeReturned = false ∧ (step (run max ops) .close).closeReturned = false ∧
+    (step (run max ops) .close).inflight = some b := by
+  have hc : (run max ops).closeReturned = false := by
+    cases h : (run max ops).closeReturned with
+    | false => rfl
+    | true => have := (run_closeInv max ops h).2; simp [hb] at this
+  have hi := step_closeInv (run max ops) .close (run_closeInv max ops)
+  have hfl : (step (run max ops) .close).inflight = some b := by
+    revert hb
+    generalize run max ops = s
+    obtain ⟨max, appended, pending, inflight, batches, calls, persisted, failed, acked, phase, blocked, ar, cc, cr⟩ := s
+    intro hb; simp only at hb; subst hb
+    cases phase <;> cases cc <;> simp [step]
+  refine ⟨hc, ?_, hfl⟩
+  cases h : (step (run max ops) .close).closeReturned with
+  | false => rfl
+  | true => have := (hi h).2; simp [hfl] at this
+
+theorem close_returns_with_the_call (max : Nat) (ops : List Op) (b : List Nat)
+    (hb : (run max ops).inflight = some b) (hp : (run max ops).phase = .stopping) :
+    (step (run max ops) .release).closeReturned = true ∧ (step (run max ops) .release).persisted = (run max ops).persisted ++ b ∧
+    (step (run max ops) .fail).closeReturned = true := by
+  revert hb hp
+  generalize run max ops = s
+  obtain ⟨max, appended, pending, inflight, batches, calls, persisted, failed, acked, phase, blocked, ar, cc, cr⟩ := s
+  intro hb hp; simp only at hb hp; subst hb; subst hp
+  simp [step]
+
+/-- … and after `Close` has returned, whatever is done to the component (appends, further releases, a second `Close`, `Run`
+again): no batch is handed to the runner function, no call returns, nothing more is persisted or acknowledged -/
+theorem nothing_reaches_the_store_after_close (max : Nat) (ops more : List Op) (h : (run max ops).closeReturned = true) :
+    (runFrom (run max ops) more).batches = (run max ops).batches ∧ (runFrom (run max ops) more).calls = (run max ops).calls ∧
+    (runFrom (run max ops) more).persisted = (run max ops).persisted ∧ (runFrom (run max ops) more).acked = (run max ops).acked := by
+  obtain ⟨hp, hi⟩ := run_closeInv max ops h
+  obtain ⟨c, b, pe, a⟩ := runFrom_ended (run max ops) more hp hi
+  exact ⟨b, c, pe, a⟩
+
+/-! non-vacuity: `Close` while the call carrying `[1]` is in flight (2 queued behind it) is still out; it returns in the step
+in which that call returns, with `[1]` persisted, `2` neither persisted nor handed over -/
+example : ((run 2 [.start, .append 1, .append 2, .close]).closeCalled, (run 2 [.start, .append 1, .append 2, .close]).closeReturned,
+           (run 2 [.start, .append 1, .append 2, .close]).inflight) = (true, false, some [1]) := by decide
+example : ((run 2 [.start, .append 1, .append 2, .close, .release]).closeReturned, (run 2 [.start, .append 1, .append 2, .close, .release]).persisted,
+           (run 2 [.start, .append 1, .append 2, .close, .release]).batches, (run 2 [.start, .append 1, .append 2, .close, .release, .append 3, .release]).batches)
+    = (true, [1], [[1]], [[1]]) := by decide
+
 /-! non-vacuity: a backlog of three entries behind a slow store call, `maxBatchSize = 2`: the batches are
 `[1] [2,3] [4]`; and five entries with `maxBatchSize = 2` drained by three returns -/
 example : ((run 2 [.start, .append 1, .append 2, .append 3, .append 4, .release, .release]).batches,
